@@ -1,11 +1,14 @@
-"""Reach monitor: which lines of the anchored functions did the workload run?
+"""Reach monitor: did the workload execute the anchored functions, and how much of them?
 
-sys.monitoring (PEP 669) LINE events are enabled *locally* on the live code
-objects that overlap an anchor's line range; the callback records the line and
-returns DISABLE, so each line costs one callback in the whole run.  An
-anchored region with zero executed lines makes the run inconclusive.
+Anchors are given as (file, first line, last line) in the pinned snapshot of the repository;
+`vf/anchor_map.json` (tools/build_anchor_map.py) translates each range to the qualified names of
+the functions it overlaps, so the monitor survives line shifts caused by later commits.
+sys.monitoring (PEP 669) LINE events are enabled *locally* on those live code objects; the
+callback records the line and returns DISABLE, so each line costs one callback per run.
+An anchored region whose functions executed no line at all makes the run inconclusive.
 """
 import importlib
+import json
 import os
 import sys
 import types
@@ -13,19 +16,21 @@ import types
 TOOL = 4
 
 
-def _codes_of(obj, seen):
-  out = []
+def _all_codes(module):
+  """qualname -> live code objects of a module (functions, methods, nested functions)."""
+  out = {}
+  seen = set()
 
   def add_code(co):
     if id(co) in seen:
       return
     seen.add(id(co))
-    out.append(co)
+    out.setdefault(co.co_qualname, []).append(co)
     for c in co.co_consts:
       if isinstance(c, types.CodeType):
         add_code(c)
 
-  def visit(v):
+  def visit(v, depth=0):
     if isinstance(v, (staticmethod, classmethod)):
       v = v.__func__
     if isinstance(v, property):
@@ -33,39 +38,44 @@ def _codes_of(obj, seen):
         if f is not None:
           visit(f)
       return
-    f = getattr(v, "__wrapped__", None)
-    if f is not None and f is not v:
-      visit(f)
+    if isinstance(v, type):
+      if v.__module__ != module.__name__ or depth > 3:
+        return
+      for x in list(vars(v).values()):
+        visit(x, depth + 1)
+      return
+    w = getattr(v, "__wrapped__", None)
+    if w is not None and w is not v:
+      visit(w, depth)
     co = getattr(v, "__code__", None)
-    if isinstance(co, types.CodeType):
+    if isinstance(co, types.CodeType) and co.co_filename == getattr(module, "__file__", None):
       add_code(co)
 
-  if isinstance(obj, type):
-    for v in list(vars(obj).values()):
-      visit(v)
-  else:
-    visit(obj)
+  for v in list(vars(module).values()):
+    visit(v)
   return out
 
 
 class Reach(object):
 
   def __init__(self):
-    self.hit = {}      # anchor name -> set(lines)
-    self.total = {}    # anchor name -> set(lines)
-    self.by_code = {}  # code id -> [(name, start, end)]
-    self.active = False
+    self.hit = {}
+    self.total = {}
+    self.by_code = {}
+    self.keep = []
 
   def report(self):
-    return {k: {"lines_hit": sorted(self.hit.get(k, ())),
-                "lines_total": len(self.total[k])} for k in self.total}
+    return {k: {"lines_hit": sorted(self.hit.get(k, ())), "lines_total": len(self.total[k])}
+            for k in self.total}
 
 
 def install(anchors, repo_root):
-  """anchors: list of (relative file, first line, last line)."""
   mon = Reach()
   if not anchors or not hasattr(sys, "monitoring"):
     return mon
+  here = os.path.dirname(os.path.dirname(os.path.abspath(__file__)))
+  with open(os.path.join(here, "anchor_map.json")) as f:
+    amap = json.load(f)
   try:
     sys.monitoring.use_tool_id(TOOL, "vf-reach")
   except ValueError:
@@ -73,39 +83,27 @@ def install(anchors, repo_root):
   E = sys.monitoring.events
 
   def on_line(code, line):
-    for name, a, b in mon.by_code.get(id(code), ()):
-      if a <= line <= b:
-        mon.hit.setdefault(name, set()).add(line)
+    for name in mon.by_code.get(id(code), ()):
+      mon.hit.setdefault(name, set()).add((code.co_qualname, line))
     return sys.monitoring.DISABLE
 
   sys.monitoring.register_callback(TOOL, E.LINE, on_line)
-  by_file = {}
+  modules = {}
   for rel, a, b in anchors:
-    by_file.setdefault(rel, []).append((a, b))
-  for rel, ranges in by_file.items():
-    modname = rel[:-3].replace("/", ".")
-    try:
-      m = importlib.import_module(modname)
-    except Exception:  # pylint: disable=broad-except
-      for a, b in ranges:
-        mon.total["%s:%d-%d" % (rel, a, b)] = set()
-      continue
-    seen = set()
-    codes = []
-    for v in list(vars(m).values()):
-      if getattr(v, "__module__", None) == m.__name__ or isinstance(v, type) and v.__module__ == m.__name__:
-        codes.extend(_codes_of(v, seen))
-    for a, b in ranges:
-      name = "%s:%d-%d" % (rel, a, b)
-      mon.total[name] = set()
-      for co in codes:
-        lines = {ln for (_, _, ln) in co.co_lines() if ln is not None}
-        inside = {ln for ln in lines if a <= ln <= b and ln != co.co_firstlineno}
-        if not inside:
-          continue
-        mon.total[name].update(inside)
-        mon.by_code.setdefault(id(co), []).append((name, a, b))
-        mon.by_code.setdefault("keep", []).append(co)
+    name = "%s:%d-%d" % (rel, a, b)
+    mon.total[name] = set()
+    qualnames = amap.get(name, [])
+    if rel not in modules:
+      try:
+        m = importlib.import_module(rel[:-3].replace("/", "."))
+        modules[rel] = _all_codes(m)
+      except Exception:  # pylint: disable=broad-except
+        modules[rel] = {}
+    for qn in qualnames:
+      for co in modules[rel].get(qn, ()):
+        lines = {ln for (_, _, ln) in co.co_lines() if ln and ln != co.co_firstlineno}
+        mon.total[name].update((qn, ln) for ln in lines)
+        mon.by_code.setdefault(id(co), []).append(name)
+        mon.keep.append(co)
         sys.monitoring.set_local_events(TOOL, co, E.LINE)
-  mon.active = True
   return mon
